@@ -943,9 +943,20 @@ func runAuth(args []string) error {
 							q := url.Values{}
 							if rng.Intn(2) == 0 {
 								q.Set("level", pick(rng, "idporten-loa-substantial", "idporten-loa-high", "Level3", "Level4", "other-acr", "nope", "a b&c=d", ""))
+								if rng.Intn(3) == 0 {
+									// near misses of a value this provider supports / of the legacy names: membership is exact
+									sup := acrSupported
+									if c.acrSup != nil {
+										sup = c.acrSup
+									}
+									q.Set("level", nearMissValue(rng, append(append([]string{}, sup...), "Level3", "Level4")))
+								}
 							}
 							if rng.Intn(2) == 0 {
 								q.Set("locale", pick(rng, "nb", "en", "se", "x\x00y", ""))
+								if rng.Intn(3) == 0 {
+									q.Set("locale", nearMissValue(rng, locSupported))
+								}
 							}
 							if rng.Intn(2) == 0 {
 								q.Set("prompt", pick(rng, "login", "select_account", "none", "consent", "x y", ""))
@@ -1066,4 +1077,27 @@ func swapASCIICase(s string) string {
 		b[len(b)-1] ^= 1
 	}
 	return string(b)
+}
+
+
+// nearMissValue derives from one of the given (supported) values a value that is NOT among them but close: other letter
+// case, a prefix, an extension, surrounding blanks, two values joined.
+func nearMissValue(rng *mrand.Rand, from []string) string {
+	v := from[rng.Intn(len(from))]
+	switch rng.Intn(7) {
+	case 0:
+		return strings.ToUpper(v)
+	case 1:
+		return swapASCIICase(v)
+	case 2:
+		return v[:len(v)-1]
+	case 3:
+		return v + "x"
+	case 4:
+		return v + " "
+	case 5:
+		return " " + v
+	default:
+		return v + " " + from[rng.Intn(len(from))]
+	}
 }
